@@ -1,6 +1,6 @@
 (* C24 — Consensus decisions do not depend on scheduling or process-local
    randomness.  Property theorems only. *)
-From Coq Require Import ZArith List Bool Sorting.Permutation.
+From Coq Require Import ZArith List Bool Sorting.Permutation Floats.
 From ELA Require Import lib.Graph proof.Graph gen.C24_graph model.C24_Select proof.C24_Select proof.C24_Static.
 Import ListNotations.
 
@@ -49,6 +49,29 @@ Theorem C24_producer_order_independent_of_insertion :
 Proof. exact sorted_voted_insertion_independent. Qed.
 Print Assumptions C24_producer_order_independent_of_insertion.
 
+(* GetTotalDPoSV2VoteRights: a float64 running sum over two nested maps. For
+   every rounding function that is exact on integers of magnitude <= 2^53 (as
+   IEEE binary64 is), if the addends are integers with total magnitude <= 2^53
+   then the result is the exact sum, whatever the order in which the two maps
+   are walked. *)
+Theorem C24_integer_float_sum_order_independent :
+  forall (round : Z -> Z), (forall z, Z.abs z <= 2 ^ 53 -> round z = z)%Z ->
+  forall stakes stakes' : list (list Z),
+    Permutation (concat stakes) (concat stakes') ->
+    (abs_sum (concat stakes) <= 2 ^ 53)%Z ->
+    vote_rights round stakes = vote_rights round stakes'.
+Proof. exact vote_rights_order_independent. Qed.
+Print Assumptions C24_integer_float_sum_order_independent.
+
+(* ... and, over the table regenerated from the source, every float64 running
+   sum in a consensus function that ranges over a map has only integer-valued
+   operands (conversions from integer types such as Fixed64, or sums of such):
+   the hypothesis of the theorem above is what the code does. *)
+Theorem C24_map_order_float_sums_integral :
+  forall f ok, In (f, ok) C24_graph.float_map_sums -> ok = true.
+Proof. exact float_map_sums_integral. Qed.
+Print Assumptions C24_map_order_float_sums_integral.
+
 (* Non-vacuity: the anchors (getCandidateIndexAtRandom,
    getRandomDposV2Producers, getSortedProducers) are sources with out-edges,
    bad nodes exist, the reachability search completed; a tie is broken by key. *)
@@ -57,8 +80,16 @@ Example C24_static_nonvacuous :
                     && existsb (fun e => Pos.eqb (fst e) (fst a)) C24_graph.graph) C24_graph.anchors = true
   /\ negb (Nat.eqb (length C24_graph.anchors) 0) = true
   /\ negb (Nat.eqb (length C24_graph.bad) 0) = true
-  /\ (match reach_set C24_graph.graph C24_graph.sources with Some _ => true | None => false end) = true.
+  /\ (match reach_set C24_graph.graph C24_graph.sources with Some _ => true | None => false end) = true
+  /\ negb (Nat.eqb (length C24_graph.float_map_sums) 0) = true.
 Proof. exact static_nonvacuous. Qed.
+
+(* with non-integer addends float64 addition is order dependent (binary64,
+   evaluated by Coq's primitive floats) *)
+Example C24_float_sum_order_matters :
+  let a := 0x1.999999999999ap-4%float in let b := 0x1.999999999999ap-3%float in let c := 0x1.3333333333333p-2%float in
+  PrimFloat.eqb (PrimFloat.add (PrimFloat.add a b) c) (PrimFloat.add a (PrimFloat.add b c)) = false.
+Proof. vm_compute. reflexivity. Qed.
 
 Example C24_sort_example :
   sorted_voted [(5, 3); (7, 9); (0, 4); (5, 1)]%Z = [(7, 9); (5, 1); (5, 3)]%Z
